@@ -3,6 +3,7 @@ from __future__ import annotations
 
 import numpy as np
 
+import c10_scale as sc
 import romsfiles as rf
 import run_ladim as rl
 import setup_impl as su
@@ -17,14 +18,18 @@ RULE = ("Paired real runs through ladim.main.main: a time-reversed run from S an
         "(depth-dependent, time-varying current, deaths, late releases): both runs compared exactly with the same "
         "executable Sim instance in Coq; (b) general layouts (several forcing files, irregular frame spacing, EF/RK2/RK4, "
         "discrete and continuous release): record-for-record comparison by the oracle, time coordinate S - n*dt, "
-        "each release at its stated time. Non-trivial = velocity changes in time and at least two release times.")
+        "each release at its stated time. Non-trivial = velocity changes in time and at least two release times. "
+        "(c) a fixed family of SCALE pairs (c10_scale: release tables of 1025 ... 130000 rows partly outside the window, "
+        "large multiplicities, 600 release times over > 1000 steps with frames 1024 steps apart in 14 files, continuous "
+        "release of thousands of rows), decided by an exact oracle on the whole output arrays of both runs.")
 TRUSTED = ["Coq 8.16.1 kernel + vm_compute", "time/mirror lemmas about coq/Model/Time.v; system model coq/Model/Sim.v with its executable instance tied by this correspondence"]
 ASSUMPTIONS = ["the reversed and the mirrored forward set-up compile to the same step-indexed environment (C03/C04/C13 component theorems + mirror lemmas)"]
 
 
 def gen_cases(ctx):
     rng = ctx.rng
-    out = []
+    # the scale family comes first and is fixed (not drawn from rng): see c10_scale.CASES
+    out = sc.gen_scale_cases(quick=ctx.quick)
     for _ in range(6 if ctx.quick else 60):
         out.append({"k": "mirror-ef", "env": si.make_env(rng), "seed": rng.randrange(10**6)})
     for _ in range(8 if ctx.quick else 80):
@@ -50,6 +55,8 @@ def eval_case(desc, ctx):
     d = ctx.subdir("c10")
     for f in d.glob("*"):
         f.unlink()
+    if desc["k"] == "scale":
+        return sc.eval_scale(desc, d)
     if desc["k"] == "setup":
         cases, problems, nt = su.eval_setup(desc["setup"], d, [(1, 0)])
         return {"ints": cases, "oracle": "; ".join(problems[:3]) or None, "nontrivial": (desc["seed"], "setup") if nt else None,
